@@ -53,7 +53,10 @@ def field_deviations(path, base_value, mode):
     if name == "version":
         v += [4, 6, 1, 5, "5", [5], 4.999, 2 ** 64]
     if name == "command":
-        v += ["Sign", "sign ", "unknown", "version", "getPubKey", 0, ["sign"], {"sign": 1}]
+        v += ["Sign", "sign ", "unknown", "version", "getPubKey", 0, ["sign"], {"sign": 1},
+              # every command name of either protocol (a name known to one protocol only is unknown to the other)
+              "sign", "advanceBlockchain", "resetAdvanceBlockchain", "blockchainState", "updateAncestorBlock",
+              "blockchainParameters", "signerHeartbeat", "uiHeartbeat"]
     if name == "keyId":
         v += ["m/44'/0'/0'/0", "m/44'/0'/0'/0/0/0", "m/44'/0'/0'/0/", "44'/0'/0'/0/0", "m/44'/0'/0'/0/-1",
               "m/44'/0'/0'/0/2147483648", "m/44'/0'/0'/0/2147483647", "m/44'/0'/0'/0/2147483647'",
